@@ -210,7 +210,7 @@ func (cli *Client) handshake(c diam.Conn) (diam.Conn, error) {
 	cli.Handler.mux.HandleIdx(baseCERIdx, diam.HandlerFunc(cerClientHandler))
 	cli.Handler.mux.HandleFunc("CER", cerClientHandler)
 	// Handle CEA and DWA.
-	errc := make(chan error)
+	errc := make(chan error, 1)
 	cli.Handler.mux.Handle("CEA", handleCEA(cli.Handler, errc))
 
 	var dwac chan struct{}
@@ -227,9 +227,8 @@ func (cli *Client) handshake(c diam.Conn) (diam.Conn, error) {
 			return nil, err
 		}
 		select {
-		case err, ok := <-errc: // Wait for CEA.
-			if ok && err != nil {
-				close(errc)
+		case err := <-errc: // Wait for CEA.
+			if err != nil {
 				c.Close()
 				return nil, err
 			}
